@@ -40,6 +40,11 @@ META = {
 
 
 def run(rep):
+    rep.alias = {"O6.4": "O3.6"}
+    from . import C06
+    rep.run(C06.candidates)  # the embeddings that are glued place different template components on different substrate components
+    rep.run(C06.component_aware)
+    rep.alias = {}
     rep.run(nonmutation)
     rep.run(node_glue)
     rep.run(bond_glue)
